@@ -26,4 +26,10 @@ for el in (71, 69, 3, 0):
                         "defs": ["-DEL=%d" % el], "unwind": 75, "timeout": 300, "tier": "quick" if el in (71, 3) else "thorough",
                         "title": "tls_client_key_shares_from_bytes: imported shares passed the validating decoder; malformed lists refused without touching uninitialised data",
                         "bounds": "key-share list of %d arbitrary bytes (exact-size object)" % el, "stubs": ["sm2_z256_point_from_octets: recording, arbitrary verdict"]})
+SM9RM = ["sm9_z256_print", "sm9_z256_from_hex", "sm9_z256_equ_hex", "sm9_z256_rand_range", "sm9_z256_print_bn"]
+for nm, en, ti in (("sm9_g1_import", "h_g1_import", "sm9_z256_point_from_uncompressed_octets: accepted exactly for 04 || x || y, x, y < p, on the curve; result = Montgomery form of those coordinates, Z = 1"),
+                   ("sm9_g2_import", "h_g2_import", "sm9_z256_twist_point_from_uncompressed_octets: accepted exactly for 04 || four elements below p on the twist curve; Z = 1")):
+    OBLIGATIONS.append({"id": "C12." + nm, "harness": "harness/C12/sm9import.c", "entry": en, "units": ["sm9_z256.c"],
+                        "remove": {"sm9_z256.c": SM9RM + ["sm9_z256_modp_to_mont", "sm9_z256_point_is_on_curve", "sm9_z256_twist_point_is_on_curve"]}, "unwind": 135, "unwindset": ["memcmp.0:200"], "timeout": 600, "backends": ["cadical", "kissat"],
+                        "title": ti, "bounds": "all 65 / 129 octets, range comparison at full width", "stubs": ["Montgomery conversion: injective recorder", "curve equation tests: arbitrary verdict (decided by C17.tower.*)"]})
 NOTE = "C12: imported keys and points."
